@@ -22,7 +22,7 @@ pub fn has_method(module: &str, name: &str) -> bool {
         ],
         "string" => &["size", "to_uppercase", "to_lowercase", "contains", "is_empty", "chars"],
         "range" => &["start", "end", "size", "contains"],
-        "iterator" => &["next", "to_tuple", "to_list", "count"],
+        "iterator" => &["next", "to_tuple", "to_list", "count", "each", "keep", "fold"],
         "number" => &[],
         "out" => &["get"],
         _ => &[],
@@ -416,6 +416,29 @@ pub fn call_native(ip: Rc<Interp>, n: Rc<NativeFn>, mut args: Vec<V>, this: Opti
                 [V::Out(v)] => Ok((**v).clone()),
                 _ => rt("args"),
             },
+            "iterator.each" | "iterator.keep" => {
+                if args.len() != 2 {
+                    return rt("args");
+                }
+                if !matches!(&args[1], V::Func(_) | V::Native(_)) {
+                    return rt("callback must be callable");
+                }
+                let src = make_iter(ip.clone(), args[0].clone()).await?;
+                Ok(V::Iter(Rc::new(IterObj {
+                    state: RefCell::new(IterState::Adapt(src, args[1].clone(), if name == "iterator.each" { 0 } else { 1 })),
+                })))
+            }
+            "iterator.fold" => {
+                if args.len() != 3 {
+                    return rt("args");
+                }
+                let it = make_iter(ip.clone(), args[0].clone()).await?;
+                let mut acc = args[1].clone();
+                while let Some(x) = iter_next(ip.clone(), &it).await? {
+                    acc = call_value(ip.clone(), args[2].clone(), vec![acc, x], None).await?;
+                }
+                Ok(acc)
+            }
             "koto.unimplemented" => Err(Ctl::Unmodelled("koto.unimplemented called".into())),
             other => Err(Ctl::Unmodelled(format!("native {other}"))),
         }
